@@ -131,6 +131,89 @@ fn collect_obj<'a, K2: AsRef<str>>(it: impl Iterator<Item = sonic_rs::Result<(K2
     (evs, late)
 }
 
+
+/// The iterator adaptors (`nth`, `skip`, `step_by`, `last`, `count`) must behave as repeated
+/// `next()`: `base` is the event list obtained with `next()` alone (items and errors, then None
+/// forever). `mk` builds a fresh iterator; items are reduced to (key, raw bytes) / error marker.
+fn adaptors<I, T>(ctx: &mut Ctx, api: &str, base: &[Ev], mk: &dyn Fn() -> I, red: &dyn Fn(T) -> Ev, seed: u64)
+where
+    I: Iterator<Item = T>,
+{
+    let strip = |e: &Ev| match e {
+        Ev::Item(k, raw, _) => Ev::Item(k.clone(), raw.clone(), 0),
+        Ev::Err(_) => Ev::Err(String::new()),
+    };
+    let base: Vec<Ev> = base.iter().map(strip).collect();
+    let mut r = crate::rng::Rng::new(seed ^ 0x6e7468);
+    ctx.ops(1);
+    // a random program of nth / next over one iterator, simulated on the baseline
+    let mut it = mk();
+    let mut pos = 0usize; // next baseline index
+    let mut log = String::new();
+    for _ in 0..6 {
+        let n = match r.below(4) {
+            0 => 0,
+            1 => r.below(3) as usize,
+            2 => base.len().saturating_sub(pos),
+            _ => base.len() + r.below(4) as usize,
+        };
+        let (got, want) = if r.chance(1, 2) {
+            log.push_str(&format!("nth({});", n));
+            let got = it.nth(n).map(|x| strip(&red(x)));
+            // default nth: n items are dropped (stopping at the first None), then one is returned
+            let avail = base.len().saturating_sub(pos);
+            let want = if n < avail {
+                pos += n + 1;
+                Some(base[pos - 1].clone())
+            } else {
+                pos = base.len();
+                None
+            };
+            (got, want)
+        } else {
+            log.push_str("next;");
+            let got = it.next().map(|x| strip(&red(x)));
+            let want = if pos < base.len() {
+                pos += 1;
+                Some(base[pos - 1].clone())
+            } else {
+                None
+            };
+            (got, want)
+        };
+        if got != want {
+            ctx.fail(&format!("adaptor-differs:{}", api), format!("{} after [{}]: {:?} but repeated next() gives {:?}", api, log, got.map(|e| format!("{:?}", e)).map(|s| crate::core::truncate(&s, 120)), want.map(|e| format!("{:?}", e)).map(|s| crate::core::truncate(&s, 120))));
+            return;
+        }
+    }
+    // whole-iterator adaptors
+    let cnt = mk().count();
+    let last = mk().last().map(|x| strip(&red(x)));
+    let k = 1 + r.below(3) as usize;
+    let skipped: Vec<Ev> = mk().skip(k).map(|x| strip(&red(x))).collect();
+    let stepped: Vec<Ev> = mk().step_by(k + 1).map(|x| strip(&red(x))).collect();
+    let want_skipped: Vec<Ev> = base.iter().skip(k).cloned().collect();
+    let want_stepped: Vec<Ev> = base.iter().step_by(k + 1).cloned().collect();
+    if cnt != base.len() || last != base.last().cloned() || skipped != want_skipped || stepped != want_stepped {
+        ctx.fail(&format!("adaptor-differs:{}", api), format!("{}: count {} (next() gives {}), last/skip({})/step_by({}) differ from repeated next()", api, cnt, base.len(), k, k + 1));
+    }
+    ctx.class("iter:adaptors-compared");
+}
+
+fn red_arr<'a>(x: sonic_rs::Result<LazyValue<'a>>) -> Ev {
+    match x {
+        Ok(v) => Ev::Item(None, v.as_raw_str().as_bytes().to_vec(), 0),
+        Err(_) => Ev::Err(String::new()),
+    }
+}
+
+fn red_obj<'a, K2: AsRef<str>>(x: sonic_rs::Result<(K2, LazyValue<'a>)>) -> Ev {
+    match x {
+        Ok((k, v)) => Ev::Item(Some(k.as_ref().to_string()), v.as_raw_str().as_bytes().to_vec(), 0),
+        Err(_) => Ev::Err(String::new()),
+    }
+}
+
 fn judge(ctx: &mut Ctx, api: &str, b: &[u8], m: &Model, evs: &[Ev], late: usize, utf8: bool, with_off: bool) {
     ctx.ops(1);
     if late > 0 {
@@ -216,8 +299,16 @@ pub fn check_input(ctx: &mut Ctx, b: &[u8]) {
     judge(ctx, "to_object_iter(&[u8])", b, &mo, &e, l, utf8, true);
     let (e, l) = collect_arr(sonic_rs::to_array_iter(&by), None);
     judge(ctx, "to_array_iter(&Bytes)", b, &ma, &e, l, utf8, false);
+    adaptors(ctx, "to_array_iter(&Bytes)", &e, &|| sonic_rs::to_array_iter(&by), &red_arr, b.len() as u64);
     let (e, l) = collect_obj(sonic_rs::to_object_iter(&by), None);
     judge(ctx, "to_object_iter(&Bytes)", b, &mo, &e, l, utf8, false);
+    adaptors(ctx, "to_object_iter(&Bytes)", &e, &|| sonic_rs::to_object_iter(&by), &red_obj, b.len() as u64 + 1);
+    {
+        let (e, _) = collect_arr(sonic_rs::to_array_iter(&ex[..]), base);
+        adaptors(ctx, "to_array_iter(&[u8])", &e, &|| sonic_rs::to_array_iter(&ex[..]), &red_arr, b.len() as u64 + 2);
+        let (e, _) = collect_obj(sonic_rs::to_object_iter(&ex[..]), base);
+        adaptors(ctx, "to_object_iter(&[u8])", &e, &|| sonic_rs::to_object_iter(&ex[..]), &red_obj, b.len() as u64 + 3);
+    }
     if let Ok(s) = std::str::from_utf8(&ex) {
         let (e, l) = collect_arr(sonic_rs::to_array_iter(s), base);
         judge(ctx, "to_array_iter(&str)", b, &ma, &e, l, true, true);
